@@ -189,6 +189,9 @@ class Gen:
         c = [n for n in self.names(kind) if pred is None or pred(self.w.ents[n])]
         return self.rng.choice(c) if c else None
 
+    def emitted_ops(self):
+        return self.w.step + 1
+
     def mesh_of(self, name):
         e = self.w.ents[name]
         return e.name if e.kind == "m" else e.meta["mesh"]
@@ -206,6 +209,31 @@ class Gen:
     def mesh_op(self, cls):
         return make_mesh_op(self.rng, cls, self.sw["maxcells"], self.sw["nonuniform"],
                             self.fresh("m"))
+
+    def regrade_op(self, mname):
+        """A second mesh of the same class, cell counts and extents as `mname`
+        but with other interior face positions (anything the library keys on
+        class / size / extent instead of on the mesh itself shows here)."""
+        rng = self.rng
+        e = self.w.ents[mname]
+        faces = []
+        for f in e.meta["faces"]:
+            f = [float(x) for x in f]
+            n = len(f) - 1
+            if n < 2:
+                faces.append(f)
+                continue
+            w = [rng.uniform(0.5, 1.5) for _ in range(n)]
+            tot = sum(w)
+            acc = f[0]
+            g = [f[0]]
+            for x in w[:-1]:
+                acc += (f[-1] - f[0]) * x / tot
+                g.append(round(acc, 6))
+            g.append(f[-1])
+            faces.append(g)
+        return {"k": "mesh", "out": self.fresh("m"),
+                "a": {"cls": e.meta["cls"], "form": "faces", "faces": faces, "regraded_from": mname}}
 
     def _setup(self):
         rng = self.rng
@@ -237,6 +265,7 @@ class Gen:
                     q.append({"k": "var", "out": v, "outb": self.fresh("b"), "a": a})
             q.append({"k": "face", "out": self.fresh("f"),
                       "a": {"m": m, "scalar": self.r(0.5, 2.0, 2)}})
+        self.want_regrade = rng.random() < 0.15
         kinds = [k for k, wt in self.sw["weights"].items() if wt > 0]
         wts = [self.sw["weights"][k] for k in kinds]
         for _ in range(self.sw["ntasks"]):
@@ -249,6 +278,25 @@ class Gen:
         if self.queue:
             return self.queue.pop(0)
         rng = self.rng
+        if getattr(self, "want_regrade", False) and self.emitted_ops() > 12 and self.names("m"):
+            # mid-run: a regraded twin of the first mesh, with a BC object configured
+            # like an existing one and a variable on it
+            self.want_regrade = False
+            m0 = self.names("m")[0]
+            mop = self.regrade_op(m0)
+            b = self.fresh("b")
+            self.queue += [{"k": "bc", "out": b, "a": {"m": mop["out"]}}]
+            cls = self.w.ents[m0].meta["cls"]
+            nd = A.GRID_NDIM[cls]
+            for sd in [s_ for s_ in A.SIDES if A.SIDE_AXIS[s_] < nd]:
+                if rng.random() < 0.7:
+                    for coef in "abc":
+                        self.queue.append({"k": "bc_edit", "a": {
+                            "b": b, "side": sd, "coef": coef, "how": "assign",
+                            "val": Editor.coef_val(self, sd, coef), "sl": self.slspec(2)}})
+            self.queue.append({"k": "var", "out": self.fresh("v"),
+                               "a": {"m": mop["out"], "val": self.vdesc(), "bc": b}})
+            return mop
         # pool limits
         for kind, lim in (("v", self.sw["vmax"]), ("t", self.sw["tmax"]),
                           ("f", self.sw["fmax"]), ("d", 3), ("w", 3)):
@@ -810,8 +858,11 @@ class Cloner(Task):
         if u < 0.9:
             return [{"k": "bc", "out": g.fresh("b"), "a": {"m": m}}]
         if len(g.names("m")) < 3:
+            if rng.random() < 0.5:
+                return [g.regrade_op(m)]
             return [g.mesh_op(rng.choice(g.sw["classes"]))]
         return []
+
 
 
 class Algebra(Task):
